@@ -150,6 +150,12 @@ class Report:
                    'tree (repaired or moved): %s'
                    % (k.get('id', ''), k.get('rule'), k.get('what', '')))
         rdir = os.path.join(VERIF, 'replay')
+        try:
+            for fn in os.listdir(rdir):
+                if fn.startswith(self.prop + '-') and fn.endswith('.json'):
+                    os.unlink(os.path.join(rdir, fn))
+        except OSError:
+            pass
         for i, f in enumerate(viol):
             path = os.path.join(rdir, '%s-%d.json' % (self.prop, i + 1))
             try:
